@@ -2027,11 +2027,18 @@ class TargetRegistry:
 
     def _get_closest_type(self, obj, type_tree):
         default = None
+        mro = type(obj).__mro__
         for cur_type, sub_tree in type_tree.items():
             if isinstance(obj, cur_type):
                 sub_type = self._get_closest_type(obj, type_tree=sub_tree)
                 ret = cur_type if sub_type is None else sub_type
-                return ret
+                if default is None:
+                    default = ret
+                elif ret in mro and (default not in mro
+                                     or mro.index(ret) < mro.index(default)):
+                    # a real base class beats a duck-typed match, and a
+                    # more specific base beats a less specific one
+                    default = ret
         return default
 
     def _register_default_types(self):
